@@ -56,14 +56,35 @@ package jsonapi
 // NewParams: proved panic-free with error-xor-result; its frame (it only writes
 // objects it allocates) is declared and assumed (flag noframe), not yet proved.
 //@ spec pFresh(params *Params) = (forall k string :: k in params.Fields ==> fresh(params.Fields[k])) && fresh(params.Attrs) && fresh(params.Rels) && (forall k string :: k in params.Attrs ==> cap(params.Attrs[k]) == 0 || fresh(params.Attrs[k])) && (forall k string :: k in params.Rels ==> cap(params.Rels[k]) == 0 || fresh(params.Rels[k]))
-//@ spec pOK(params *Params, schema *Schema) = schema != nil && params != nil && fresh(params) && params.Fields != nil && fresh(params.Fields) && params.Attrs != nil && params.Rels != nil && unchanged(heap[string]) && pFresh(params) && unchanged(heap[Attr]) && unchanged(heap[[]Rel]) && unchanged(heap[Rel]) && unchanged(maps[map[string][]Attr]) && unchanged(maps[map[string][]Rel]) && unchanged(maps[map[string][]string])
+//@ spec pOK(params *Params, schema *Schema) = schema != nil && params != nil && fresh(params) && params.Fields != nil && fresh(params.Fields) && params.Attrs != nil && params.Rels != nil && unchanged(heap[string]) && unchanged(heap[Type]) && unchanged(heap[Schema]) && pFresh(params) && unchanged(heap[Attr]) && unchanged(heap[[]Rel]) && unchanged(heap[Rel]) && unchanged(maps[map[string][]Attr]) && unchanged(maps[map[string][]Rel]) && unchanged(maps[map[string][]string])
+//@ spec keysKnown(params *Params, schema *Schema, resType string) = forall t string :: t in params.Fields ==> t == resType || old(hasType(schema, t))
+
 //@ func NewParams
 //@ flag absolute-quantifiers
 //@ props C07 C12
-//@ requires schema: schema != nil
+//@ requires schema: schema != nil && targetsExist(schema)
 //@ requires su: suWf(su)
 //@ modifies new[Params], new[string], new[[]string], new[map[string][]string], new[map[string][]Attr], new[map[string][]Rel], new[Attr], new[Rel], new[[]Rel]
 //@ ensures error-xor-result: (result1 != nil) == (result0 == nil)
+//@ ensures fields-known: result1 == nil ==> (forall t string :: t in result0.Fields ==> t == resType || hasType(schema, t))
+//@ loop 0 invariant keys-known: keysKnown(params, schema, resType)
+//@ loop 1 invariant keys-known: keysKnown(params, schema, resType)
+//@ loop 2 invariant keys-known: keysKnown(params, schema, resType)
+//@ loop 3 invariant keys-known: keysKnown(params, schema, resType)
+//@ loop 4 invariant keys-known: keysKnown(params, schema, resType)
+//@ loop 5 invariant keys-known: keysKnown(params, schema, resType)
+//@ loop 6 invariant keys-known: keysKnown(params, schema, resType) && t in params.Fields
+//@ loop 7 invariant keys-known: keysKnown(params, schema, resType) && t in params.Fields
+//@ loop 8 invariant keys-known: keysKnown(params, schema, resType) && t in params.Fields
+//@ loop 9 invariant keys-known: keysKnown(params, schema, resType) && t in params.Fields
+//@ loop 10 invariant keys-known: keysKnown(params, schema, resType)
+//@ loop 11 invariant keys-known: keysKnown(params, schema, resType)
+//@ loop 12 invariant keys-known: keysKnown(params, schema, resType)
+//@ loop 13 invariant keys-known: keysKnown(params, schema, resType)
+//@ loop 14 invariant keys-known: keysKnown(params, schema, resType)
+//@ loop 15 invariant keys-known: keysKnown(params, schema, resType)
+//@ loop 16 invariant keys-known: keysKnown(params, schema, resType)
+//@ loop 17 invariant keys-known: keysKnown(params, schema, resType)
 //@ loop 0 invariant idx: -1 <= i && i < len(incs) && fresh(incs)
 //@ loop 0 invariant p: pOK(params, schema)
 //@ loop 1 invariant idx: 0 <= i#1 && fresh(incs)
